@@ -371,4 +371,82 @@ func c17(c *Ctx) {
 		}
 		r.Check(ok, "R17.M", "request-reissued", c.pos(mk.Pos()), "when the error was handled (nil), makeRequest(data, …) is called again with the same request")
 	}
+	// "the address configured for data centre X" is the configuration of THIS client: the table a client looks X
+	// up in is a map made for it, not one it shares with every other client of the process (SetDCList writes
+	// into the table in place)
+	nst := 0
+	var rootFns []*ssa.Function
+	for f := range c.P.AllFunctions() {
+		if f.Pkg != nil && f.Pkg.Pkg.Path() == load.RootMod && len(f.Blocks) > 0 {
+			rootFns = append(rootFns, f)
+		}
+	}
+	sort.Slice(rootFns, func(i, j int) bool { return rootFns[i].String() < rootFns[j].String() })
+	for _, f := range rootFns {
+		per := 0
+		for _, b := range f.Blocks {
+			for _, in := range b.Instrs {
+				st, ok := in.(*ssa.Store)
+				if !ok {
+					continue
+				}
+				fa, ok := st.Addr.(*ssa.FieldAddr)
+				if !ok {
+					continue
+				}
+				if k, _ := fieldKeyOf(fa); !strings.HasSuffix(k, "mtproto.MTProto.dclist") {
+					continue
+				}
+				nst++
+				per++
+				why := ""
+				r.Check(freshMap(st.Val, 0, &why), "R17.M", sprintf("dc-table-per-client:%s#%d", an.ShortName(f), per), c.pos(st.Pos()), "the data-centre table of a client is a map made for that client; here it is "+why+": one client's SetDCList would reconfigure the others")
+			}
+		}
+	}
+	if nst == 0 {
+		r.Undecide("R17.M", "dc-table-per-client", "", "no store to MTProto.dclist found")
+	}
+}
+
+// freshMap: v is a map made by this very evaluation (make / map literal), possibly inside a repository function
+// all of whose returns are such maps.
+func freshMap(v ssa.Value, depth int, why *string) bool {
+	if depth > 4 {
+		*why = "too deep to follow"
+		return false
+	}
+	switch x := v.(type) {
+	case *ssa.MakeMap:
+		return true
+	case *ssa.Phi:
+		for _, e := range x.Edges {
+			if !freshMap(e, depth+1, why) {
+				return false
+			}
+		}
+		return true
+	case *ssa.Call:
+		if g := an.StaticCallee(x.Common()); g != nil && len(g.Blocks) > 0 && g.Signature.Results().Len() == 1 {
+			n := 0
+			for _, b := range g.Blocks {
+				if ret, ok := b.Instrs[len(b.Instrs)-1].(*ssa.Return); ok {
+					n++
+					if !freshMap(ret.Results[0], depth+1, why) {
+						return false
+					}
+				}
+			}
+			return n > 0
+		}
+		*why = "the result of " + an.CalleeName(x.Common())
+		return false
+	case *ssa.UnOp:
+		if g, ok := x.X.(*ssa.Global); ok {
+			*why = "the package variable " + g.Name()
+			return false
+		}
+	}
+	*why = "a value that is not made on the spot (" + v.Name() + ")"
+	return false
 }
